@@ -138,7 +138,7 @@ func runC15a(c *Ctx) {
 	ser, _ := serializerOf(sz)
 	cliLimExp := byte(g.Pick("\x00", "\x00", "\x01", "\x03", "\x0f")[0]) // announced client receive limit 2^(9+x)
 	cliLimit := 1 << (9 + int(cliLimExp))
-	srvRecvLimit := []int{0, 512, 1024, 4096}[g.Intn(4)]
+	srvRecvLimit := []int{0, 512, 600, 1024, 3000, 4096, 5000}[g.Intn(7)] // also limits that are not a power of two: the announced one is the next power
 	srvLimit := 1 << 24
 	if srvRecvLimit > 0 {
 		srvLimit = srvRecvLimit
@@ -205,7 +205,11 @@ func runC15a(c *Ctx) {
 				st.size = 100
 			}
 		case 0:
-			st.size = []int{5, srvLimit - 150, srvLimit - 40, srvLimit + 10}[g.Intn(4)]
+			pow2 := 512
+			for pow2 < srvLimit {
+				pow2 *= 2
+			}
+			st.size = []int{5, srvLimit - 150, srvLimit - 40, srvLimit + 10, pow2 - 150, pow2 - 40, pow2 + 10}[g.Intn(7)]
 			if st.size < 1 || st.size > 70000 {
 				st.size = 5
 			}
